@@ -5,7 +5,7 @@
    labels: which thread moves, which ready select case is taken, when the context
    ends); [run] skips labels that are not enabled. *)
 From Coq Require Import List ZArith Bool Arith Permutation.
-From GZ Require Import C10.Model C10.Proofs C10.ProofsT C10.ProofsQ C10.ProofsM C10.ProofsS C10.ProofsC C10.ProofsP C10.ProofsL.
+From GZ Require Import C10.Model C10.AtomicErr C10.Proofs C10.ProofsT C10.ProofsQ C10.ProofsM C10.ProofsS C10.ProofsC C10.ProofsP C10.ProofsL C10.ProofsA.
 Import ListNotations.
 
 (* At most [workers] mapper functions run at any time (and the pool never holds more
@@ -411,3 +411,105 @@ Proof. vm_compute. split; reflexivity. Qed.
 (* non-vacuity of panic_is_never_lost: ex_cfg's generator does not panic *)
 Example ex_cfg_no_gen_panic : no_gen_panic ex_cfg.
 Proof. intros k H. simpl in H. repeat (destruct H as [H|H]; [discriminate|]). exact H. Qed.
+
+(* ---- AtomicError (core/errorx/atomicerror.go) and the error VALUE of a cancellation ---- *)
+(* Error values are Go interface values: the nil interface, or a dynamic type with a payload that may
+   be a nil pointer (a typed nil: a NON-nil error).  The contract of the anchor, for every content and
+   every value: a Set of any non-nil interface value - typed nils included - whose concrete type
+   agrees with what is stored (always so on a fresh AtomicError) does not panic, and Load returns
+   that very value.  Pinned.typed_nil_guard_breaks_set_contract refutes the variant of seeded change
+   C10-10. *)
+Theorem set_non_nil_interface_is_loaded : forall st v,
+  v <> None -> same_type st v = true ->
+  ae_set guard_today st v = (v, false) /\ ae_load (fst (ae_set guard_today st v)) = v.
+Proof. exact set_non_nil_interface_is_loaded_l. Qed.
+Print Assumptions set_non_nil_interface_is_loaded.
+
+Example set_typed_nil_is_loaded :
+  let tn := goerr_of (Some 1011) in
+  tn <> None /\ is_typed_nil tn = true /\ ae_load (fst (ae_set guard_today None tn)) = tn
+  /\ ae_load (fst (ae_set guard_today (Some (dyn_of_code 1008)) tn)) = tn.
+Proof. vm_compute. repeat split; congruence. Qed.
+
+Theorem set_nil_is_ignored : forall st, ae_set guard_today st None = (st, false).
+Proof. exact set_nil_is_ignored_l. Qed.
+Print Assumptions set_nil_is_ignored.
+
+(* any sequence of Sets of one concrete type: nothing panics, the last non-nil value wins *)
+Theorem sets_last_wins : forall vs st,
+  consistent st vs = true -> ae_sets guard_today st vs = (last_non_nil st vs, false).
+Proof. exact sets_last_wins_l. Qed.
+Print Assumptions sets_last_wins.
+
+(* concurrent Sets of one concrete type, every order in which the Stores take effect: nothing
+   panics and the Load afterwards returns one of the non-nil values Set (the old content if every
+   Set was ignored) - exactly what Check.conc_allowed accepts of the implementation *)
+Theorem concurrent_sets : forall st vs order,
+  Permutation vs order -> consistent st vs = true ->
+  let '(st', p) := ae_sets guard_today st order in
+  p = false /\ conc_allowed st vs (ae_load st') = true.
+Proof. exact concurrent_sets_l. Qed.
+Print Assumptions concurrent_sets.
+
+Example concurrent_sets_example :
+  consistent None [goerr_of (Some 1011); goerr_of (Some 1008); None; goerr_of (Some 1018)] = true.
+Proof. reflexivity. Qed.
+
+(* the judgement of the check on observed Set / Load histories is implied by the model reproducing
+   them, and histories computed by the model are accepted (it is not vacuous) *)
+Theorem ae_agrees_prop : forall ops st, ae_agrees st ops = true -> ae_prop st ops = true.
+Proof. exact ae_agrees_prop_l. Qed.
+Print Assumptions ae_agrees_prop.
+Theorem model_history_accepted : forall vs st, ae_agrees st (seq_history st vs) = true.
+Proof. exact model_history_accepted_l. Qed.
+Print Assumptions model_history_accepted.
+
+(* mr: the head of the cancel body on the fresh retErr of a call, for EVERY value passed to cancel:
+   nothing panics; Load returns the passed value itself if it is a non-nil interface (typed nils
+   included) and ErrCancelWithNil if it is the nil interface *)
+Theorem cancel_stores_passed_value : forall v,
+  cancel_store guard_today None v = (cancel_arg v, false)
+  /\ (v <> None -> ae_load (fst (cancel_store guard_today None v)) = v)
+  /\ (v = None -> ae_load (fst (cancel_store guard_today None v)) = Some dyn_cancel_with_nil).
+Proof. exact cancel_stores_passed_value_l. Qed.
+Print Assumptions cancel_stores_passed_value.
+
+(* ... which is what the LTS stores ([Some (err_of e)], Model.user_step) and what the caller's
+   output branch turns into the result, for every script action UCancel e; distinct codes are
+   distinct values (identity) *)
+Theorem cancel_store_refines_lts : forall e,
+  e <> Some 1001%Z ->
+  let '(st, p) := cancel_store guard_today None (goerr_of e) in
+  p = false /\ exists d, ae_load st = Some d /\ err_of_dyn d = err_of e
+                         /\ out_branch st None = OErr (err_of e)
+                         /\ (forall y, out_branch st (Some y) = OErr (err_of e)).
+Proof. exact cancel_store_refines_lts_l. Qed.
+Print Assumptions cancel_store_refines_lts.
+Theorem error_codes_are_distinct_values : forall j k, dyn_of_code j = dyn_of_code k -> j = k.
+Proof. exact dyn_of_code_injective. Qed.
+Print Assumptions error_codes_are_distinct_values.
+
+(* whenever the caller's select commits to an outcome that is not an error - a value, or
+   ErrReduceNoOutput for the closed output - no cancel call has entered the once body, nothing is
+   stored and the context branch has not been taken: a cancelled call never returns
+   ErrReduceNoOutput (every schedule, all scripts, both output protocols; generalises
+   value_commit_not_cancelled).  Pinned.seed_c10_10_typed_nil_cancel_returns_no_output: the variant
+   of seeded change C10-10 does. *)
+Theorem normal_commit_not_cancelled : forall c sched b s' o,
+  let s := run c (init c) sched in
+  mainpc s = MSelect -> step c s (LMain b) = Some s' -> mainpc s' = MDefer o ->
+  (forall e, o <> OErr e) ->
+  g_cancels s = [] /\ reterr s = None /\ cstate s = CNone.
+Proof. exact normal_commit_not_cancelled_l. Qed.
+Print Assumptions normal_commit_not_cancelled.
+
+(* non-vacuity: no items, a reducer that writes nothing - the caller commits to ErrReduceNoOutput at
+   its select, and nothing was cancelled *)
+Example normal_commit_example :
+  let c := mkCfg VFixed false 1%nat [] (fun _ => []) [] false in
+  let s := run c (init c) [LGen; LGen; LGen; LExec false; LExec false; LExec false; LExec false; LExec false;
+                           LExec false; LRed; LRed; LRed; LRed] in
+  mainpc s = MSelect
+  /\ (exists s', step c s (LMain BOut) = Some s' /\ mainpc s' = MDefer ONoOutput)
+  /\ g_cancels s = [].
+Proof. vm_compute. split; [reflexivity | split; [eexists; split; reflexivity | reflexivity]]. Qed.
